@@ -96,6 +96,17 @@ func corpusFiles() []gram.Named2 {
 		sp.Rules = append(sp.Rules, gram.Rule{L: fmt.Sprintf("N%d", n), R: nil})
 		out = append(out, gram.Named2{Name: fmt.Sprintf("exponential-automaton-%d", n), Text: sp.Render(), NoEdits: true})
 	}
+	// a ladder of 45 levels, two alternatives per level that both begin with the next level's nonterminal
+	// (45 rules, under 1 KB; anything that explores the alternatives separately needs 2^45 steps)
+	{
+		var b strings.Builder
+		b.WriteString("%token X Y Z\n%start a0\n%%\n")
+		for i := 0; i < 44; i++ {
+			fmt.Fprintf(&b, "a%d : a%d X | a%d Y ;\n", i, i+1, i+1)
+		}
+		b.WriteString("a44 : Z ;\n")
+		out = append(out, gram.Named2{Name: "ladder-45", Text: b.String(), NoEdits: true})
+	}
 	// a union with two members; nonterminals without %type whose unit rules lead to symbols of different tags
 	out = append(out, gram.Named2{Name: "untyped-nonterminals-over-two-tags", Text: "%{\npackage p\n%}\n%union {\n\tnum int\n\tstr string\n}\n%token <num> NUM\n%token <str> STR\n%type <num> list\n%start list\n%%\n" +
 		"list : item { $$ = 1 }\n  | list item { $$ = $1 + 1 }\n  ;\nitem : value\n  | a\n  ;\nvalue : NUM\n  | STR\n  ;\na : b\n  | c\n  ;\nb : NUM ;\nc : STR ;\n%%\n" +
